@@ -269,7 +269,7 @@ def run(ctx):
 
     # ================================================================ Lyapunov
     kinds = ["random"] * 6 + ["slow", "diag", "zeroB", "scalar", "scalar", "cap", "cap"]
-    n_lyap = 260 if thorough else 110
+    n_lyap = 700 if thorough else 110
     cases, meta = [], []
     worst = {"lyap_res": 0.0, "lyap_agree": 0.0, "ricc_res": 0.0, "ricc_sym": 0.0, "ricc_agree": 0.0, "ricc_rho": 0.0}
     for t in range(n_lyap):
@@ -418,7 +418,7 @@ def run(ctx):
     ricc_tol = float(inspect.signature(me.solve_discrete_riccati).parameters["tolerance"].default)
     ricc_maxit = int(inspect.signature(me.solve_discrete_riccati).parameters["max_iter"].default)
     kinds = ["random", "random", "unstable", "unstable", "stable", "singularQ", "noN", "scalar", "scalar"]
-    n_ricc = 240 if thorough else 90
+    n_ricc = 600 if thorough else 90
     cases, meta, qcases, qmeta = [], [], [], []
     n_gamma_same = 0
     for t in range(n_ricc):
